@@ -3,6 +3,7 @@
 //!   mrlmc <property> <quick|thorough> --out <part.json>
 //!   mrlmc replay <replay.json>
 #![allow(dead_code)]
+mod crash;
 mod exec;
 mod model;
 mod ops;
